@@ -206,6 +206,10 @@ def hostile_extra():
         item = body + prefix + content + pinned.crc24q_table(inner).to_bytes(3, "big")
         if not pinned.frame_ok(item):
             out.append({"name": f"Glstrip:{nm}", "data": item})
+    # genuine frames of proprietary numbers just above 4076 (the IGS family's special case ends at 4076)
+    for num in (4077, 4080, 4095):
+        pl = ((num << 4) & 0xFFFF).to_bytes(2, "big") + bytes((num * 7 + i * 29) & 0xFF for i in range(4))
+        out.append({"name": f"F{num}", "data": pinned.frame(pl), "payload": pl, "kind": "frame"})
     # a false header whose bogus frame swallows a genuine frame exactly (its "CRC" is junk): the
     # genuine frame is lost (allowed), but must not turn up later, out of stream order
     for nm, inner in (("F2", f2), ("F19", f19)):
@@ -213,7 +217,7 @@ def hostile_extra():
             out.append({"name": f"Dfalse:{nm}:{junk.hex()}",
                         "data": b"\xd3" + len(inner).to_bytes(2, "big") + inner + junk})
     for it in out:
-        it["kind"] = "hostile"
+        it.setdefault("kind", "hostile")
     return out
 
 
